@@ -445,9 +445,13 @@ def _main(prop, tier, seed, scen_name, scratch, t0, only):
         # prefer counterexamples whose model can be built in the requested input kinds
         good = [x for x in lst if not (x[2].get('model') or {}).get('_unrepresentable')]
         pool = good or lst
-        picks = pool[:2] if len(pool) <= 2 else [pool[0], pool[len(pool) // 2], pool[-1]]
-        if good and len(good) > 3:
-            picks.append(good[len(good) // 4])
+        # up to 8 candidates spread over the occurrences (different jobs / flavours / paths): the key counts as
+        # reproduced if any of them replays
+        if len(pool) <= 8:
+            picks = list(pool)
+        else:
+            step = (len(pool) - 1) / 7.0
+            picks = [pool[int(round(i * step))] for i in range(8)]
         for (ji, rec, ob) in picks:
             tid = 'replay:%d' % len(tasks)
             tasks.append({'id': tid, 'scen': scen_name, 'fn': jobs[ji]['fn'],
